@@ -873,6 +873,137 @@ def r19_codes_symmetry_and_selection(idx, r):
                   msg=f"`{norm(s_.stmt)}` does not store the complete symmetry string: boundary condition / through-centre marker are lost when a grid is rebuilt from stored parameters")
 
 
+def _same(a, b):
+    from ..astutil import same_expr
+    return same_expr(a, b)
+
+
+class _PickLiteral(ast.NodeTransformer):
+    """(a, b, c)[1] -> b   (after copy propagation a local tuple that is indexed with a literal stands for that element only)"""
+
+    def visit_Subscript(self, n):
+        self.generic_visit(n)
+        if isinstance(n.value, (ast.Tuple, ast.List)) and isinstance(n.slice, ast.Constant) and isinstance(n.slice.value, int) \
+                and not isinstance(n.slice.value, bool) and -len(n.value.elts) <= n.slice.value < len(n.value.elts) \
+                and not any(isinstance(e, ast.Starred) for e in n.value.elts):
+            return n.value.elts[n.slice.value]
+        return n
+
+
+def _covered_parts(key, whole, n):
+    """which of the n positional parts of the record `whole` (an expression) the expression `key` depends on: the record itself -> all;
+    record[i] / record[a:b] with literal bounds -> those positions; anything else that mentions the record (a call on it, a non-literal
+    subscript) is counted as all of it (generous: the rule only reports parts that are provably left out)."""
+    if _same(key, whole):
+        return set(range(n))
+    if isinstance(key, ast.Subscript) and _same(key.value, whole):
+        sl = key.slice
+
+        def lit(x):
+            if x is None:
+                return True, None
+            if isinstance(x, ast.UnaryOp) and isinstance(x.op, ast.USub) and isinstance(x.operand, ast.Constant) and isinstance(x.operand.value, int):
+                return True, -x.operand.value
+            if isinstance(x, ast.Constant) and isinstance(x.value, int) and not isinstance(x.value, bool):
+                return True, x.value
+            return False, None
+        if isinstance(sl, ast.Slice):
+            oks, vals = zip(*(lit(x) for x in (sl.lower, sl.upper, sl.step)))
+            if all(oks) and vals[2] != 0:
+                return set(range(n)[slice(*vals)])
+            return set(range(n))
+        ok_, v = lit(sl)
+        if ok_ and v is not None and -n <= v < n:
+            return {v % n}
+        return set(range(n))
+    out = set()
+    for ch in ast.iter_child_nodes(key):
+        out |= _covered_parts(ch, whole, n)
+    return out
+
+
+def r20_interned_records(idx, r):
+    """The layout stores each DISTINCT grid once and gives every object the index of its grid: `table[key] = len(records)` / `records.append(record)`
+    / `index = table[key]`.  Two objects get the same stored grid exactly when their keys are equal, so the key must determine the record:
+    every component of the record appended - the grid class name and each GridParameters field that reduce() returns - has to take part in the
+    key; the same key has to be used where the table is tested, filled and consulted; and the index memoised is the position the record is
+    appended at.  Enumerated for every such interning table in armi.bookkeeping.db (today: the grids of Layout._createLayout)."""
+    fields = _gp_fields(idx)
+    sites = []
+    for m in idx.modules.values():
+        if not m.name.startswith("armi.bookkeeping.db") or ".tests" in m.name:
+            continue
+        for f in m.all_funcs():
+            stores = [s_ for s_ in iter_stores(f.node, include_nested=False) if s_.kind == "subscript" and s_.chain and s_.value is not None]
+            if not stores:
+                continue
+            env = single_assign_env(f.node)
+            for s_ in stores:
+                v = propagate(s_.value, env)
+                if not (isinstance(v, ast.Call) and dotted(v.func) == "len" and len(v.args) == 1 and dotted(v.args[0])):
+                    continue
+                rec = dotted(v.args[0])
+                apps = [c for c in iter_calls(f.node, include_nested=False) if dotted(c.func) == rec + ".append" and len(c.args) == 1]
+                if apps:
+                    sites.append((f, env, s_, rec, apps))
+    if not any(f.qualname.endswith("Layout._createLayout") for f, *_ in sites):
+        raise AnchorMissing("Layout._createLayout: the table that memoises the index of each distinct grid (`table[key] = len(self.gridParams)`)")
+    for f, env, s_, rec, apps in sites:
+        tab = s_.chain
+        tag = f"{f.qualname}:{tab.rsplit('.', 1)[-1]}"
+        if len(apps) != 1:
+            raise AnalysisError(f"{f.qualname}: {len(apps)} appends to {rec}; one expected next to `{norm(s_.stmt)}`")
+        key = _PickLiteral().visit(propagate(s_.node.slice, env))
+        record = _PickLiteral().visit(propagate(apps[0].args[0], env))
+        # (a) every component of the stored record takes part in the key
+        parts = list(record.elts) if isinstance(record, ast.Tuple) else [record]
+        n_comp = 0
+        for e in parts:
+            if isinstance(e, ast.Call) and call_attr(e) == "reduce" and not e.args and not e.keywords:
+                got = _covered_parts(key, e, len(fields))
+                for i, fname in enumerate(fields):
+                    n_comp += 1
+                    r.require(i in got, f"{tag}:key-covers:{fname}", f, node=s_.stmt,
+                              msg=f"the key `{norm(key)[:110]}` under which a stored grid is shared leaves out `{fname}` of `{norm(e)}`: a grid that differs from an earlier one of the "
+                                  f"reactor only in its {fname} is not stored; the object written second gets the earlier grid's index and loads back with the earlier grid's {fname}")
+            else:
+                n_comp += 1
+                label = "class-name" if isinstance(e, ast.Attribute) and e.attr == "__name__" else norm(e)[:40]
+                r.require(any(_same(x, e) for x in ast.walk(key)), f"{tag}:key-covers:{label}", f, node=s_.stmt,
+                          msg=f"the key `{norm(key)[:110]}` under which a stored record is shared does not contain `{norm(e)}` of the record `{norm(record)[:80]}`: two objects that differ "
+                              "only there share the record stored first, and the second loads back with the first one's")
+        if f.qualname.endswith("Layout._createLayout") and n_comp < len(fields) + 1:
+            raise AnalysisError(f"Layout._createLayout: the stored grid description `{norm(record)[:80]}` is not (class name, <grid>.reduce()) any more")
+        # (b) one key where the table is tested, filled and consulted
+        uses = []
+        for x in walk_local(f.node):
+            if isinstance(x, ast.Compare) and len(x.ops) == 1 and isinstance(x.ops[0], (ast.In, ast.NotIn)) and dotted(x.comparators[0]) == tab:
+                uses.append(("tested", x.left))
+            elif isinstance(x, ast.Subscript) and isinstance(x.ctx, ast.Load) and dotted(x.value) == tab:
+                uses.append(("consulted", x.slice))
+            elif isinstance(x, ast.Call) and dotted(x.func) in (tab + ".get", tab + ".setdefault", tab + ".pop") and x.args:
+                uses.append(("consulted", x.args[0]))
+        if not any(k == "consulted" for k, _ in uses):
+            raise AnalysisError(f"{f.qualname}: `{tab}` is filled but never consulted")
+        other = [(k, norm(propagate(e, env))) for k, e in uses if not _same(_PickLiteral().visit(propagate(e, env)), key)]
+        r.require(not other, f"{tag}:one-key-tested-filled-consulted", f, node=s_.stmt,
+                  msg=f"`{tab}` is filled under `{norm(key)[:80]}` but {other[:2]} under another expression: an object is given the index memoised for another grid (or none is found)")
+        # (c) the index memoised is the position the record is appended at: len(records) is taken before the append, in the same block
+        ev_stmt = s_.stmt
+        if isinstance(s_.value, ast.Name) and s_.value.id in env:
+            ev_stmt = next((t.stmt for t in iter_stores(f.node, include_nested=False) if isinstance(t.node, ast.Name) and t.attr == s_.value.id), s_.stmt)
+        par = f.module.parents()
+        app_stmt = apps[0]
+        while not isinstance(app_stmt, ast.stmt):
+            app_stmt = par[app_stmt]
+        block = next((b for holder in [par.get(ev_stmt)] if holder is not None for b in (getattr(holder, nm, None) for nm in ("body", "orelse", "finalbody"))
+                      if isinstance(b, list) and ev_stmt in b), None)
+        ok_pos = block is not None and app_stmt in block and block.index(ev_stmt) < block.index(app_stmt)
+        r.require(ok_pos, f"{tag}:index-is-position-of-the-record", f, node=s_.stmt,
+                  msg=f"`{norm(s_.stmt)[:80]}` must take len({rec}) immediately before `{norm(app_stmt)[:60]}` on the same path: otherwise the memoised index names another "
+                      "stored grid than the one appended for this key, and objects load back with a neighbour's grid")
+
+
 def run(idx, chk):
     chk.explanation = (
         "C04: Layout.writeToDB/_readLayout, _createLayout/_initComps/_compose, _packLocationsV3/_unpackLocationsV2, "
@@ -921,3 +1052,6 @@ def run(idx, chk):
                  necessary="the loaded state equals the written one, None and flags included")
     chk.run_rule("R04.19", "a parameter is written iff saved and assigned within the mask (evaluated); the grid stores its full symmetry string", lambda r: r19_codes_symmetry_and_selection(idx, r), floor=2,
                  necessary="every assigned parameter and the grid symmetry of the loaded reactor equal the written ones")
+    chk.run_rule("R04.20", "the key under which a stored grid is shared between objects covers the grid's class name and every GridParameters field; one key is tested, filled and consulted; the index memoised is the record's position",
+                 lambda r: r20_interned_records(idx, r), floor=9,
+                 necessary="every object loads back with its own grid: two objects may share one stored grid only if class and all constructor arguments (unit steps, bounds, limits, offset, geomType, symmetry) agree")
